@@ -442,7 +442,9 @@ fn wrong_kind(ctx: CtxK, id: u32) -> bool {
     }
 }
 /// rules the harness EXPECTS may fail for this input (only used to keep the number of known
-/// failing judge lines bounded; the judge still evaluates every other rule on every input)
+/// failing judge lines bounded; the judge still evaluates every other rule on every input).
+/// "top": since the F5 fix only `TapTree::leaf` + `Tr::new` still accept a non-B top level; the
+/// wsh/sh/bare entry points reject it, so they emit no line for such inputs at all.
 fn suspects(ctx: CtxK, n: &Node, base_b: bool) -> Vec<&'static str> {
     let mut v = vec![];
     if !base_b { v.push("top"); }
@@ -452,8 +454,6 @@ fn suspects(ctx: CtxK, n: &Node, base_b: bool) -> Vec<&'static str> {
     let multi = contains(n, &|x| matches!(x, Node::Multi(..) | Node::SortedMulti(..)));
     let multi_a = contains(n, &|x| matches!(x, Node::MultiA(..) | Node::SortedMultiA(..)));
     if (ctx == CtxK::Tap && multi) || (ctx != CtxK::Tap && multi_a) { v.push("multi"); }
-    // pk_cost counts 65 instead of 66 bytes for an uncompressed key (F17): from_ast's size check undershoots
-    if matches!(ctx, CtxK::Bare | CtxK::Legacy) && ks.iter().any(|k| (100..200).contains(k)) { v.push("size"); }
     v
 }
 
@@ -591,7 +591,6 @@ where Ctx::Key: PkOf + miniscript::ToPublicKey {
             let class = if !base_b && ms.is_some() { "nonB" }
                 else if matches!(ctx, CtxK::Bare | CtxK::Legacy) && contains(n, &|x| matches!(x, Node::DupIf(_) | Node::OrI(..))) { "cond" }
                 else if suspects(ctx, n, true).contains(&"keys") { "keys" }
-                else if suspects(ctx, n, true).contains(&"size") { "size" }
                 else if ms.as_ref().and_then(|m| m.ext.sat_data.map(|d| m.ext.static_ops + d.max_exec_op_count)).map(|c| c > 201).unwrap_or(false) && ctx != CtxK::Tap { "ops" }
                 else { "plain" };
             if class == "plain" || bud.take(format!("t4 {} {}", class, cn)) {
@@ -695,7 +694,7 @@ fn stress(ctx: CtxK) -> Vec<Node> {
     let good: Vec<u32> = match ctx { CtxK::Tap => (200..230).collect(), _ => (0..30).collect() };
     let (k0, k1, k2) = (good[0], good[1], good[2]);
     let mut l = vec![];
-    // F17 witness first (so that it is inside the judge budget): 522 real bytes, pk_cost 515
+    // regression for F17 (fixed): 522 real bytes; pk_cost used to be 515, so from_ast's 520-byte check let it through
     if ctx == CtxK::Legacy {
         let mut cur = pk(0);
         for k in (100u32..107).rev() { cur = and_v(v(pk(k)), cur); }
